@@ -38,6 +38,11 @@ where
   pub fn clear(&self) {
     *self.inner.write().unwrap() = None;
   }
+  /// empties the slot and tells whether it was occupied: of several
+  /// concurrent callers at most one gets `true`
+  pub fn clear_if_available(&self) -> bool {
+    self.inner.write().unwrap().take().is_some()
+  }
   pub fn empty(&self) -> bool {
     self.inner.read().unwrap().is_none()
   }
